@@ -1,4 +1,4 @@
-\* Quick tier, part 3: the log hand-over is not atomic - heads are published, polled and scanned between LogReceived and PendingStored.
+\* Quick tier, part 4: Run returns (fatal RPC error) and is restarted on the same Watcher while messages are pending.
 SPECIFICATION MCSpec
 CONSTANTS
   Nil = Nil
@@ -8,10 +8,10 @@ CONSTANTS
   Modes = {TRUE, FALSE}
   CLs = {0, 1}
   MineBack = 0
-  ArmKinds = {"hreceipt"}
+  ArmKinds = {"hreceipt", "ltime"}
   RemineStatus = {1}
   MidScanHeads = FALSE
-  HeldIntake = TRUE
+  HeldIntake = FALSE
   MaxHeads = 3
   MaxMine = 1
   MaxPush = 2
@@ -21,7 +21,7 @@ CONSTANTS
   MaxFail = 0
   MaxArm = 1
   MaxReq = 0
-  MaxRestart = 0
+  MaxRestart = 1
 INVARIANTS
   TypeOK
   ForwardSound
